@@ -45,7 +45,9 @@ template<class A> static void sweep(int op,const Text&x,const Text&y,unsigned ar
 
 VH_DRIVER(fault){
   g_only=atoi(arg_value(argc,argv,"--only","-1")); Rng R(g.seed); long runs=0; bool th=g.thorough;
-  std::vector<Text> uris; for(const char*s:{"s://u@h:1/a/b?q#f","//[::1]/x/y","//1.2.3.4:80/a","//[v1.x]:9/p/q/r","s:a/b/c","/a/b/../c/./d","a/./b/../../c","S://U%41@H%42:1/%41a/%42b/../c?%43#%44","http://user@example.org:8080/a/b?q=1#f","//h:1/x","s://h/a/b/..","s://h/a/b/c/d/../x/..","file:///","","?q","#f","//h","s:/./a//b","b:c/../d:e","../../x","s://h//"}) uris.push_back(T(s));
+  std::vector<Text> uris; for(const char*s:{"s://u@h:1/a/b?q#f","//[::1]/x/y","//1.2.3.4:80/a","//[v1.x]:9/p/q/r","s:a/b/c","/a/b/../c/./d","a/./b/../../c","S://U%41@H%42:1/%41a/%42b/../c?%43#%44","http://user@example.org:8080/a/b?q=1#f","//h:1/x","s://h/a/b/..","s://h/a/b/c/d/../x/..","file:///","","?q","#f","//h","s:/./a//b","b:c/../d:e","../../x","s://h//",
+    // dot removal exposes a first segment that needs the "." guard back (the re-insertion allocates: its failure is a path of its own)
+    "./a:b","x/../a:b/c",".//a","x:/.//y","/a/..//b","s:/..//b","a/..//b","%2e/a:b","s:x/..//y/../z"}) uris.push_back(T(s));
   long nuri=atol(arg_value(argc,argv,"--uris",th?"60":"0"));
   for(long i=0;i<nuri;++i){ Text t; const char*sc[]={"","s:","S+x:"}; const char*au[]={"","//h","//u%41@H:1","//[::1]","//1.2.3.4","//[vA.b]"}; t=T(sc[R.below(3)])+T(au[R.below(6)]); int n=R.below(7); for(int j=0;j<n;++j){ t.push_back('/'); const char*sg[]={"a",".","..","%41","","b%2Fc","x:y"}; t=t+T(sg[R.below(7)]); } if(R.below(2)) t=t+T("?q%41"); if(R.below(2)) t=t+T("#f%42"); uris.push_back(t); }
   std::vector<Text> bases; for(const char*s:{"s://g/x/y?z","s://1.2.3.4/x/","s://[::2]/a/b/c","s:/x/y","s://u@h:1/a/b?q#f","t://g/"}) bases.push_back(T(s));
